@@ -24,6 +24,31 @@ def main (dump start out : String) : IO UInt32 := do
     if let some t := text then IO.FS.writeFile out t
   return 0
 
+/-- the first `sequence` below a named component (directly, or inside complexType / complexContent / extension) -/
+partial def firstSequence (n : XNode) (depth : Nat) : Option XNode :=
+  if depth == 0 then none else
+  n.elemKids.findSome? fun k =>
+    if k.tag == "sequence" then some k
+    else if k.tag == "complexType" || k.tag == "complexContent" || k.tag == "extension" then firstSequence k (depth - 1)
+    else none
+
+partial def schemaNodes (n : XNode) : List XNode :=
+  if n.tag == "schema" then [n] else n.elemKids.flatMap schemaNodes
+
+/-- `zvdrv shapes <dump>`: the shape of the content sequence of every named global component, as parsed by roxmltree -/
+def shapes (dump : String) : IO UInt32 := do
+  let content ← IO.FS.readFile dump
+  let (files, _) := Dump.parse content
+  for f in files do
+    for top in (f.tops.getD []) do
+      for sch in schemaNodes top do
+        for c in sch.elemKids do
+          if c.tag == "complexType" || c.tag == "element" then
+            match c.attr? "name", firstSequence c 4 with
+            | some n, some sq => IO.println s!"SHAPE\t{f.name}\t{n}\t{sq.shape}"
+            | _, _ => pure ()
+  return 0
+
 /-- stdin lines: `<dump>\t<start>\t<out|->`; one outcome line per request -/
 def batch : IO UInt32 := do
   ZeepVerif.Driver.forLines (← IO.getStdin) fun line => do
